@@ -446,7 +446,8 @@ std::set<Downtime::Ptr> Downtime::GetChildren() const
 
 bool Downtime::CanBeTriggered()
 {
-	if (IsInEffect() && IsTriggered())
+	/* already running - a fixed downtime that was triggered once is never triggered (or announced) again */
+	if (IsTriggered() && (GetFixed() || IsInEffect()))
 		return false;
 
 	if (IsExpired())
